@@ -697,6 +697,10 @@ def family_taint():
     add(F, "t_two_returns_in_helper", ["u = pick(c)", "sink(u)", "return 0"], helpers="def pick(flag):\n    if flag:\n        return source()\n    return 0\n")
     add(F, "t_keyword_arguments_unsorted", ["t = source()", "kw(x=t, a=1)", "return 0"], helpers="def kw(a, x):\n    sink(x)\n")
     add(F, "t_reassigned_same_name", ["t = source()", "t = t + 1", "u = t", "sink(u)", "return 0"])
+    add(F, "t_argument_tainted_in_then_arm", ["t = source()", "if c:", "    x = t", "else:", "    x = 0", "pass_to(x)", "return 0"], helpers="def pass_to(p):\n    sink(p)\n")
+    add(F, "t_argument_tainted_in_else_arm", ["t = source()", "if c:", "    x = 0", "else:", "    x = t", "pass_to(x)", "return 0"], helpers="def pass_to(p):\n    sink(p)\n")
+    add(F, "t_argument_tainted_then_overwritten_in_arm", ["t = source()", "x = t", "if c:", "    x = 0", "pass_to(x)", "return 0"], helpers="def pass_to(p):\n    sink(p)\n")
+    add(F, "t_second_argument_with_two_definitions", ["t = source()", "x = 0", "if c:", "    x = t", "pass2(1, x)", "return 0"], helpers="def pass2(k, p):\n    sink(p)\n")
     add(F, "t_argument_with_two_definitions", ["t = 0", "if c:", "    t = source()", "pass_to(t)", "return 0"], helpers="def pass_to(p):\n    sink(p)\n")
     add(N, "n_other_variable", ["t = source()", "v = 5", "sink(v)", "return 0"])
     add(N, "n_wrong_position", ["t = source()", "sink(1, t)", "return 0"])
